@@ -107,9 +107,13 @@ def simple_get_restriction_tag(document, cls):
     restriction = etree.SubElement(simple_type, XSD('restriction'))
     restriction.set('base', extends.get_type_name_ns(document.interface))
 
-    for v in cls.Attributes.values:
+    values = [XmlDocument().to_unicode(cls, v) for v in cls.Attributes.values]
+    if isinstance(cls.Attributes.values, (set, frozenset)):
+        values.sort()  # a set has no order of its own: keep the document stable
+
+    for v in values:
         enumeration = etree.SubElement(restriction, XSD('enumeration'))
-        enumeration.set('value', XmlDocument().to_unicode(cls, v))
+        enumeration.set('value', v)
 
     return restriction
 
